@@ -108,9 +108,7 @@ Definition conc_plain (opc : Z) (v : env) (fr : frame) (w : world) : plain * wor
          let bs := firstn (Z.to_nat l) (src ++ repeat 0 (Z.to_nat l)) in
          (POk [] pc 0, write_mem w d (a mod U64) bs)
   else if opc =? 62 then                                                     (* RETURNDATACOPY *)
-    if negb (b <? U64) then (PErr, w)
-    else let e := (b + c) mod W256 in
-         if negb (e <? U64) || (f_rds fr <? e) then (PErr, w) else unknown_if (negb (c mod U64 =? 0))
+    if retdata_guard (f_rds fr) b c then unknown_if (negb (c mod U64 =? 0)) else (PErr, w)
   else if (opc =? 80) || (opc =? 85) then ok0                                (* POP SSTORE *)
   else if opc =? 81 then                                                     (* MLOAD: known memory or opaque *)
     match get_mem w d with
